@@ -283,6 +283,27 @@ def check_case(case):
         ref_table = {(int(k[0]), int(k[1])): float(v) for k, v in ref_table.items()}
         require(got_table == ref_table, "training_set.single_effect_table", "single-effect table is not the single-agent effect map of the observed rows")
 
+    # ---- "each exactly once" also when the observed experiments arrive in two batches (train, reveal a plate, add it):
+    #      same training arrays and, under controlled randomness, bit-identical posterior samples as when handed over in one go
+    if case["model"] == "SparseDrugCombo" and observed.size >= 2:
+        from batchie import sampling
+        from batchie.core import ThetaHolder
+
+        k = 1 + case["seed"] % (observed.size - 1)
+        first = np.arange(observed.size) < k
+        m_one = cls(experiment_space=ExperimentSpace.from_screen(screen_a), n_embedding_dimensions=case["D"])
+        m_one.add_observations(observed)
+        m_two = cls(experiment_space=ExperimentSpace.from_screen(screen_a), n_embedding_dimensions=case["D"])
+        m_two.add_observations(observed.subset(first))
+        m_two.add_observations(observed.subset(~first))
+        require(_same(_training_arrays(m_one), _training_arrays(m_two)) and m_one.n_obs() == m_two.n_obs(), "training_set.two_batches.rows", "training rows differ when the same observed experiments are added in two batches")
+        outs = []
+        for m_ in (m_one, m_two):
+            with controlled(case["seed"]):
+                h = sampling.sample(model=m_, results=ThetaHolder(n_thetas=3), seed=case["seed"], n_chains=1, chain_index=0, n_burnin=1, thin=1)
+            outs.append([_theta_items(t) for t in h.thetas])
+        require(_same(outs[0], outs[1]), "training_set.two_batches.posterior", lambda: "posterior samples differ when the same %d observed experiments are added in two batches (%d + %d) instead of one" % (observed.size, k, observed.size - k))
+
     # ---- refusals
     for label, mutate in (("masked", None), ("negative", -0.2), ("nan", float("nan"))):
         m2 = cls(experiment_space=ExperimentSpace.from_screen(screen_a), n_embedding_dimensions=case["D"])
